@@ -16,6 +16,9 @@ def White (ws : Str) : Prop := ∀ c ∈ ws, isWhite c = true
 /-- text that may follow an atom: nothing, or something that begins with a `\s` character -/
 def Ends (rest : Str) : Prop := ∀ c ∈ rest.head?, isSpace c = true
 
+instance (ws : Str) : Decidable (White ws) := by unfold White; infer_instance
+instance (rest : Str) : Decidable (Ends rest) := by unfold Ends; infer_instance
+
 /-- an operand of the documented language: non-empty, no `\s` character, and not starting with
     one of the operator literals -/
 structure IsAtom (x : Str) : Prop where
